@@ -303,6 +303,16 @@ func TestC12Close(t *testing.T) {
 			// a multi-transport swarm over a transport whose Close reports an error: everything above must still be closed
 			spec = stack.Spec{Base: "mem", BaseMTU: 1500, QueueLen: 256, Layers: []stack.Layer{{Kind: "errclose"}, {Kind: "multi", Name: "t"}}}
 		}
+		if special == 3 {
+			// a multi-transport swarm over a transport that reports its shutdown with an error of its own, or over
+			// a fragmenting swarm (which ends its loops by cancelling its own context): the loops the multi-transport
+			// swarm started must end, whatever non-nil error the transport returns
+			under := stack.Layer{Kind: "odderr"}
+			if rapid.Bool().Draw(t, "fragBeneath") {
+				under = stack.Layer{Kind: "frag", MTU: 1485 * 4}
+			}
+			spec = stack.Spec{Base: "mem", BaseMTU: 1500, QueueLen: 256, Layers: []stack.Layer{under, {Kind: "multi", Name: "t"}}}
+		}
 		if special == 0 {
 			// the swarm that is closed is one channel of a multiplexer: Close must not depend on the multiplexer's
 			// loop getting rid of a message that nobody is receiving
